@@ -205,6 +205,98 @@ def t_should_skip_entry(src):
     return term, R.norm(fake[blk.lo + 1:blk.hi - 1])
 
 
+def m_len(recv, args):
+    if recv[1] != "N" or args:
+        raise TranslateError(".len() on a value of type %s" % recv[1])
+    return recv          # the metadata is represented by its len()
+
+
+def t_skip_filesize(src):
+    sp = spec(atoms={"*ent": ("md_len", "option N"), "max_filesize": ("max_filesize", "N")},
+              methods={"len": m_len})
+    toks = R.tokenize(src)
+    b_lo, b_hi = R.find_fn(toks, "skip_filesize", 0, len(toks), free=True)
+    fake, blk = R.parse_block(toks, b_lo, b_hi)
+    term, ty = Translator(fake, sp).block_(blk, {}, tail=True)
+    if ty != "bool":
+        raise TranslateError("skip_filesize has type %s" % ty)
+    return term, R.norm(fake[blk.lo + 1:blk.hi - 1])
+
+
+def json_fn(fn):
+    def t(src):
+        sp = spec(atoms={"self.json.config.max_matches": ("max_matches", "option nat"),
+                         "self.match_count": ("match_count", "nat"),
+                         "self.after_context_remaining": ("after_context_remaining", "nat")})
+        toks = R.tokenize(src)
+        lo, hi = find_impl_with_fn(toks, "JSONSink", fn)
+        return body_in(toks, lo, hi, fn, sp, "bool")
+    return t
+
+
+WALK_CTORS = dict(CTORS)
+WALK_CTORS["Filter"] = ("FilterBox", "bool", "filter_box")
+SKIP_FILESIZE_CALL = "skip_filesize(self.max_filesize.unwrap(), %s.path(), &%s.metadata().ok(),)"
+SKIP_FILESIZE_CALL1 = "skip_filesize(self.max_filesize.unwrap(), %s.path(), &%s.metadata().ok())"
+
+
+def ident1(args):
+    if len(args) != 1:
+        raise TranslateError("wrapper call with %d arguments" % len(args))
+    return args[0]
+
+
+def t_skip_entry(src):
+    sp = spec(ctors=WALK_CTORS, calls={"Ok": ident1},
+              atoms={"ent.depth()": ("depth", "nat"), "should_skip_entry(&self.ig, ent)": ("should_skip", "bool"),
+                     "self.skip": ("skip", "option unit"), "path_equals(ent, stdout)?": ("path_equals", "bool"),
+                     "self.max_filesize.is_some()": ("max_filesize_is_some", "bool"), "ent.is_dir()": ("is_dir", "bool"),
+                     SKIP_FILESIZE_CALL % ("ent", "ent"): ("skip_filesize_verdict", "bool"),
+                     SKIP_FILESIZE_CALL1 % ("ent", "ent"): ("skip_filesize_verdict", "bool"),
+                     "&self.filter": ("filter", "option filter_box"), "filter(ent)": ("v_filter", "bool")})
+    toks = R.tokenize(src)
+    lo, hi = find_impl_with_fn(toks, "Walk", "skip_entry")
+    return body_in(toks, lo, hi, "skip_entry", sp, "bool")
+
+
+def gw_let(name, want_params):
+    """the right-hand side of `let <name> = ..;` directly inside Worker::generate_work"""
+    def t(src):
+        sp = spec(ctors=WALK_CTORS,
+                  atoms={"self.max_filesize.is_some()": ("max_filesize_is_some", "bool"),
+                         "dent.is_dir()": ("is_dir", "bool"),
+                         SKIP_FILESIZE_CALL % ("dent", "dent"): ("skip_filesize_verdict", "bool"),
+                         SKIP_FILESIZE_CALL1 % ("dent", "dent"): ("skip_filesize_verdict", "bool"),
+                         "&self.filter": ("filter", "option filter_box"), "predicate(&dent)": ("v_predicate", "bool")})
+        toks = R.tokenize(src)
+        lo, hi = find_impl_with_fn(toks, "Worker", "generate_work")
+        b_lo, b_hi = R.find_fn(toks, "generate_work", lo, hi)
+        fake, rhs = R.find_let_rhs(toks, b_lo, b_hi, name)
+        term, ty = Translator(fake, sp).expr(rhs, {})
+        if ty != "bool":
+            raise TranslateError("%s has type %s" % (name, ty))
+        return term, R.norm(fake[rhs.lo:rhs.hi])
+    return t
+
+
+def t_par_send(src):
+    """is `self.send(Work {..})` executed: the only statement-`if` of generate_work that mentions self.send"""
+    import re
+    toks = R.tokenize(src)
+    lo, hi = find_impl_with_fn(toks, "Worker", "generate_work")
+    b_lo, b_hi = R.find_fn(toks, "generate_work", lo, hi)
+    fake, blk = R.parse_block(toks, b_lo, b_hi)
+    sp = spec(atoms={"should_skip_filesize": ("should_skip_filesize", "bool"),
+                     "should_skip_filtered": ("should_skip_filtered", "bool")})
+    tr = Translator(fake, sp)
+    found = [s for s in blk.a[0] if "self.send(" in R.norm(fake[s.lo:s.hi])]
+    if blk.a[1] is not None and "self.send(" in R.norm(fake[blk.a[1].lo:blk.a[1].hi]):
+        raise TranslateError("self.send in the tail expression")
+    if len(found) != 1 or not (found[0].kind == "expr" and found[0].a.kind == "if"):
+        raise TranslateError("self.send(..) is not in exactly one `if` statement of generate_work")
+    return tr.reach_if(found[0].a, re.compile(r"^self\.send\("), {}), R.norm(fake[found[0].lo:found[0].hi])
+
+
 TARGETS = [
     # name, params, type, file, translator, enums
     ("is_line_by_line_fast", "(passthru stop_on_nonmatch has_matched : bool) (matcher_line_term : option lineterm) "
@@ -231,6 +323,21 @@ TARGETS = [
      "crates/printer/src/standard.rs", std_fn("match_more_than_limit"), []),
     ("should_skip_entry", "(is_ignore is_whitelist : bool)", "bool", "crates/ignore/src/walk.rs",
      t_should_skip_entry, []),
+    ("json_should_quit", "(max_matches : option nat) (match_count after_context_remaining : nat)", "bool",
+     "crates/printer/src/json.rs", json_fn("should_quit"), []),
+    ("json_match_more_than_limit", "(max_matches : option nat) (match_count : nat)", "bool",
+     "crates/printer/src/json.rs", json_fn("match_more_than_limit"), []),
+    ("skip_filesize", "(max_filesize : N) (md_len : option N)", "bool", "crates/ignore/src/walk.rs",
+     t_skip_filesize, []),
+    ("skip_entry", "(depth : nat) (should_skip : bool) (skip : option unit) (path_equals : bool) "
+     "(max_filesize_is_some is_dir skip_filesize_verdict : bool) (filter : option filter_box)", "bool",
+     "crates/ignore/src/walk.rs", t_skip_entry, []),
+    ("par_should_skip_filesize", "(max_filesize_is_some is_dir skip_filesize_verdict : bool)", "bool",
+     "crates/ignore/src/walk.rs", gw_let("should_skip_filesize", None), []),
+    ("par_should_skip_filtered", "(filter : option filter_box)", "bool", "crates/ignore/src/walk.rs",
+     gw_let("should_skip_filtered", None), []),
+    ("par_send", "(should_skip_filesize should_skip_filtered : bool)", "bool", "crates/ignore/src/walk.rs",
+     t_par_send, []),
 ]
 
 
